@@ -140,10 +140,10 @@ impl Scenario for C01S {
     }
     fn count(&self, tier: Tier, variant: &str) -> u64 {
         match (tier, variant) {
-            (Tier::Quick, "os") => NBOUNDARY + 6000,
-            (Tier::Quick, _) => 2000,
-            (Tier::Thorough, "os") => NBOUNDARY + 600_000,
-            (Tier::Thorough, _) => 150_000,
+            (Tier::Quick, "os") => NBOUNDARY + 40_000,
+            (Tier::Quick, _) => 10_000,
+            (Tier::Thorough, "os") => NBOUNDARY + 2_500_000,
+            (Tier::Thorough, _) => 500_000,
         }
     }
     fn rule(&self) -> &'static str {
